@@ -183,7 +183,11 @@ def capture():
             captured.append((site, pattern if isinstance(pattern, (str, bytes)) else pattern.pattern, int(flags)))
         return r
 
-    for m in [k for k in sys.modules if k == "sansldap" or k.startswith("sansldap.")]:
+    # the library is imported afresh so that its module-level patterns are compiled under the wrapper; the modules the
+    # rest of the harness already holds are put back afterwards (two copies of the package in one process would make
+    # exception classes and enums of the copies compare unequal)
+    saved = {k: v for k, v in sys.modules.items() if k == "sansldap" or k.startswith("sansldap.")}
+    for m in saved:
         del sys.modules[m]
     re._compile = wrap
     try:
@@ -199,16 +203,18 @@ def capture():
         str(sansldap.FilterEquality("a", b"\x00"))
     finally:
         re._compile = orig
+        fresh = {k: v for k, v in sys.modules.items() if k == "sansldap" or k.startswith("sansldap.")}
+        for m in fresh:
+            del sys.modules[m]
+        sys.modules.update(saved)
     # module-level patterns get their attribute names
     names = {}
-    import sansldap._filter as F
-    from sansldap import schema as S2
-
-    for mod, short in ((F, "filter"), (S2, "schema")):
+    for modname, mod in sorted(fresh.items()):
+        short = modname.rsplit(".", 1)[-1].strip("_")
         for attr in dir(mod):
-            v = getattr(mod, attr)
+            v = getattr(mod, attr, None)
             if isinstance(v, re.Pattern):
-                names[(v.pattern, int(v.flags) & ~re.UNICODE)] = short + "_" + attr.strip("_")
+                names.setdefault((v.pattern, int(v.flags) & ~re.UNICODE), short + "_" + attr.strip("_"))
     out = []
     seen = {}
     stable = stable_names()
